@@ -8,8 +8,10 @@ import (
 	"fmt"
 	"os"
 	"runtime"
+	"unsafe"
 
 	"github.com/ozontech/file.d/offset"
+	"github.com/ozontech/file.d/pipeline"
 	filein "github.com/ozontech/file.d/plugin/input/file"
 
 	"verif/harness/hx"
@@ -45,4 +47,39 @@ func helperMain() {
 	}
 	_, _ = os.Stat(markEnd)
 	os.Exit(rc)
+}
+
+// ---- borrowed byte strings ------------------------------------------------------------------------------------
+// General rule of this harness: a byte string handed to the code under test is BORROWED - it is backed by a buffer the
+// harness overwrites as soon as the call returned. That is what the pipeline does: Event.streamName is the unsafe string
+// insane-json returns for the event's stream field, it points into the decode buffer of the pooled event, and the next
+// line read into that event overwrites the bytes. Code that keeps such a string instead of copying it (a key of
+// job.offsets, say) then holds whatever the buffer holds later, and the next save writes a name nobody committed.
+//
+// c07Lend returns s as an unsafe string over a fresh buffer and the function that poisons the buffer. The poison is a
+// function of the bytes only (replays are deterministic): every byte becomes a DIFFERENT letter, never a newline /
+// ':' / blank, so an aliased name is still a loadable one and shows up in the observation as a name never committed.
+func c07Lend(s string) (string, func()) {
+	if len(s) == 0 {
+		return "", func() {}
+	}
+	buf := make([]byte, len(s))
+	copy(buf, s)
+	poison := func() {
+		for i, b := range buf {
+			nb := 'A' + b%26
+			if nb == b {
+				nb = 'z'
+			}
+			buf[i] = nb
+		}
+	}
+	return unsafe.String(&buf[0], len(buf)), poison
+}
+
+// c07Event: a regular event of the source whose stream name is borrowed (see c07Lend); recycle() is what the pipeline
+// does with the event after commit returned.
+func c07Event(sid uint64, seq uint64, off int64, stream string) (e *pipeline.Event, recycle func()) {
+	name, poison := c07Lend(stream)
+	return pipeline.VerifC07Event(pipeline.SourceID(sid), seq, off, name), poison
 }
